@@ -16,9 +16,12 @@ def main():
         pid = p["id"]
         path = os.path.join(ROOT, "checks", pid.lower() + ".py")
         if not os.path.exists(path):
-            na.append({"property_id": pid, "reason": NOT_APPLICABLE.get(pid, "check not built yet in this round (planned in DESIGN.md section 4); nothing is claimed for it")})
+            na.append({"property_id": pid, "reason": NOT_APPLICABLE.get(pid, "not claimed: check designed in DESIGN.md section 4 but not built (section 12.1); the technique applies, nothing is asserted for this property")})
             continue
         mod = importlib.import_module("checks." + pid.lower())
+        if not getattr(mod, "REGISTER", True):
+            na.append({"property_id": pid, "reason": "not claimed: a check module exists but is not quiet yet on the unchanged tree (DESIGN.md section 12.1); the technique applies, nothing is asserted for this property"})
+            continue
         checks.append({
             "property_id": pid,
             "quick_cmd": f"/venv/bin/python run.py {pid} --tier quick",
